@@ -330,6 +330,25 @@ def rule_concrete(src, rep, it, counts):
                     "from_str(%r): character %d is read as %s, a terminal displays %s" % (s_, k, got[k] if k < len(got) else None, want[k] if k < len(want) else None))
         return None
     res = pmap(one_layout, layouts, min_chunk=16) + pmap(one_string, strings, min_chunk=64)
+    # the same statement on values arrived at through a history (operations on base values that were looked at first)
+    from ..derive import derived_values
+    it2 = new_interp(src)
+    dv = derived_values(it2)
+    for how, v in dv:
+        if isinstance(v, tuple):
+            continue
+        runs = runs_of(v)
+        if any("\x1b" in t or "\x9b" in t for t, _ in runs):
+            continue
+        r = it2.callm(v, "__str__")
+        r2 = it2.call1("formatstring", "FmtStr.from_str", r[1]) if r[0] == "ok" and isinstance(r[1], str) else r
+        if r2[0] == "opaque":
+            raise AnalysisError("from_str(str(f)) outside the evaluated subset for %s: %s" % (how, r2[1]))
+        want = [(ch, st(a)) for t, a in runs for ch in t]
+        got = [(ch, st(dict(e))) for ch, e in cells(runs_of(r2[1]))] if r2[0] == "ok" else None
+        res.append(None if got == want else ("R7-from_str-of-str-gives-the-same-cells", how,
+                                             "f = %s with the runs %s: str(f) = %r reads back as %s" % (how, runs, r[1] if r[0] == "ok" else r, runs_of(r2[1]) if r2[0] == "ok" else r2)))
+    counts["derived_values"] = len(dv)
     bad = {}
     for x in res:
         rep.case(True)
